@@ -43,6 +43,12 @@ def run(res, tier, replay):
             pt, base, plain = oabfmt.build_patch(rng, [(0, 1000), (ss, 0), (4096, 20000)])
             for bs in ([4096, 16] if tier == "quick" else [16, 17, 4096, 65536]):
                 lines.append(oablib.model_line_patch(pt, base)); scns.append(oablib.scn_patch(pt, base, bs)); meta.append(("patch drop-block source=%d buf=%d" % (ss, bs), plain))
+    # directed: the first token of a patch block is a match that starts in the last bytes of the reference data and runs on over the
+    # window edge into its own output (short offset, long length: a run at the end of the base continuing into the target)
+    for k, (off, ml) in enumerate([(3, 96), (1, 257), (2, 5), (7, 8), (5, 200)][:(3 if tier == "quick" else 5)]):
+        pt, base, plain = oabfmt.build_patch(rng, [(100, 300), (40000, 500)], first_match=(off, ml))
+        for bs in ([4096] if tier == "quick" else [16, 4096]):
+            lines.append(oablib.model_line_patch(pt, base)); scns.append(oablib.scn_patch(pt, base, bs)); meta.append(("patch edge-match off=%d len=%d buf=%d" % (off, ml, bs), plain))
     # directed: stored blocks of odd and tiny sizes between compressed ones
     for sizes, kinds in (([1, 7, 100, 333], [0, 0, 1, 0]), ([333, 1, 5000], [0, 0, 0]), ([0, 5, 0, 3], [0, 1, 0, 0])):
         oab, plain = oabfmt.build_full(rng, sizes, kinds=kinds)
